@@ -49,7 +49,7 @@ TRUSTED_EXTRA = ['harness/c18.py: ast visitor reading except clauses (fail-close
 
 PROP = 'C18'
 KF_CLEANUP, KF_EXIT, KF_BIGINT, KF_HANG = 'KF-C18-2', 'KF-C18-3', 'KF-C18-4', 'KF-C18-5'
-KF_NUL = 'KF-C18-8'
+KF_NUL, KF_EMPTY_GLOB = 'KF-C18-8', 'KF-C18-10'
 
 # ---------------------------------------------------------------------------------------------
 # exception classes of the model  (Coq constructor -> how to get the real class)
@@ -1066,6 +1066,7 @@ def run(ctx, res):
     finally:
         runner.close()
     res.evaluations = n
+    res.extra['disagreement_samples'] = [{'case': d.case, 'detail': d.detail} for d in res.disagreements[:5]]
     res.rule = RULE
     res.extra['route_table_rows'] = getattr(ctx, 'c18_route_rows', None)
 
@@ -2027,6 +2028,15 @@ def kf_bigint_pred(text):
     return False
 
 
+_EMPTY_STR_DEF = re.compile(r'^\s*def\s+string\s+(\S+)\s*=\s*(\'\'|"")\s*$', re.M)
+
+
+def kf_empty_glob_pred(text):
+    """`path` followed by an empty GLOB-PATTERN: '' or "" or a reference to a string symbol defined as the empty string"""
+    empties = ["''", '""'] + ['@[%s]@' % n for n, _ in _EMPTY_STR_DEF.findall(text)]
+    return any(re.search(r'(^|\s)path\s+%s(\s|$)' % re.escape(e), text) for e in empties)
+
+
 def kf_nul_pred(text):
     return '\x00' in text
 
@@ -2159,6 +2169,7 @@ CORPUS_CASES = [
      '[assert]\nstdout matches @[EXACTLY_HOME]@\n', None),
     ('N7b the same through a path symbol and a string symbol, in a transformer',
      '[setup]\ndef path P = -rel-home d\ndef string C = @[P]@1\nfile f.txt = x -transformed-by replace @[C]@ y\n', None),
+    ('N8 empty glob pattern for the `path` file matcher (KF-C18-10)', "[assert]\nexists -rel-home d : path ''\n", KF_EMPTY_GLOB),
     ('unknown instruction', '[setup]\nno-such-instruction x\n', None),
     ('unknown phase', '[nope]\nx\n', None),
     ('unterminated quote', "[setup]\nfile f.txt = 'abc\n", None),
@@ -2193,6 +2204,8 @@ def run_one_fuzz(runner, text, res, label):
     elif (exc is ValueError and 'integer string conversion' in str(pr.exception)
           or internal and last.startswith('ValueError: Exceeds the limit')) and kf_bigint_pred(text):
         finding = KF_BIGINT
+    elif internal and last.startswith('ValueError: empty pattern') and 'matches_glob_pattern.py' in pr.err and kf_empty_glob_pred(text):
+        finding = KF_EMPTY_GLOB
     elif (internal and last.startswith('ValueError: embedded null byte')
           or exc is ValueError and 'embedded null byte' in str(pr.exception)) and kf_nul_pred(text):
         finding = KF_NUL
